@@ -62,6 +62,7 @@ def worker(args, scratch):
     posts = []
     plan = {"faults": [], "i": 0}
     goal_count = [0]
+    overhead = [None, None]
     lock = threading.Lock()
 
     def handler(name, req):
@@ -100,12 +101,16 @@ def worker(args, scratch):
                 else: plan["faults"] = ["500", "reset", "500", "503", "500", "ok"]
             originals = {}   # id -> message
             expect_dropped = set()
-            size_class = r.choice(["small", "small", "boundary", "huge-one", "many", "markup"])
+            size_class = r.choice(["small", "boundary", "huge-one", "many", "markup", "exact", "exact"])
+            if size_class == "exact" and overhead[0] is None:
+                size_class = "calibrate"
             nfiles = r.randrange(1, 6)
             files = []
             n = 0
             for f in range(nfiles):
                 evs = []
+                if size_class in ("exact", "calibrate"):
+                    break
                 nev = {"small": r.randrange(0, 12), "boundary": r.randrange(8, 30), "huge-one": r.randrange(2, 8), "many": r.randrange(100, 400), "markup": r.randrange(1, 20)}[size_class]
                 for e in range(nev):
                     eid = "EVT-%d-%d-%d-" % (args["shard"], sc, n); n += 1
@@ -121,6 +126,23 @@ def worker(args, scratch):
                     originals[eid] = msg
                     evs.append(make_event(msg, n))
                 files.append(evs)
+            if size_class == "calibrate":
+                # one plain event alone: body size - message length = fixed per-batch + per-event overhead (measured, not assumed)
+                fp = "all-ok"; plan["faults"] = []
+                eid = "EVT-%d-%d-0-" % (args["shard"], sc); msg = eid + "c" * 100
+                originals[eid] = msg; files = [[make_event(msg, 0)]]
+            if size_class == "exact":
+                # two plain events whose batch lands exactly on / next to 65536 bytes: [frame + 2 * per-event] + len(m1) + len(m2) = target
+                fp = "all-ok"; plan["faults"] = []
+                target = r.choice([65534, 65535, 65536, 65537, 65538])
+                frame, per_event = overhead
+                total_msg = target - frame - 2 * per_event
+                e1 = "EVT-%d-%d-0-" % (args["shard"], sc); e2 = "EVT-%d-%d-1-" % (args["shard"], sc)
+                l1 = total_msg // 2; l2 = total_msg - l1
+                m1 = e1 + "a" * (l1 - len(e1)); m2 = e2 + "b" * (l2 - len(e2))
+                originals[e1] = m1; originals[e2] = m2
+                files = [[make_event(m1, 0), make_event(m2, 0)]]
+                exact_target = target
             for f, evs in enumerate(files):
                 tmp = os.path.join(EVDIR, "tmp%d.part" % f)
                 with open(tmp, "w") as fh:
@@ -148,6 +170,18 @@ def worker(args, scratch):
             if not done:
                 res["violations"].append(["event-processing-did-not-terminate-or-left-files", dict(wit, left=os.listdir(EVDIR))])
                 break   # the reader may be stuck for good; later scenarios in this process would only repeat the finding
+            if size_class == "calibrate" and len(myposts) == 1:
+                one = len(myposts[0]["body"])
+                # second calibration point is implicit: an empty Provider frame is constant; measure per-event overhead by the known template
+                frame_len = len(b'<?xml version="1.0"?><TelemetryData version="1.0"><Provider id="FFF0196F-EE4C-4EAF-9AA5-776F622DEB4F"></Provider></TelemetryData>')
+                overhead[0], overhead[1] = frame_len, one - frame_len - len(list(originals.values())[0].encode())
+                # make_event(i=0) task/op names have fixed length for i < 10
+            if size_class == "exact":
+                sizes = sorted(len(p["body"]) for p in myposts)
+                bump("exact_boundary_scenarios")
+                cnt.setdefault("exact_batch_sizes_seen", [])
+                if sizes and sizes[-1] not in cnt["exact_batch_sizes_seen"] and len(cnt["exact_batch_sizes_seen"]) < 50:
+                    cnt["exact_batch_sizes_seen"].append(sizes[-1])
             batches = {}     # body -> list of outcomes
             for p in myposts:
                 batches.setdefault(p["body"], []).append(p["outcome"])
